@@ -109,8 +109,8 @@ def run(ctx):
                'harness-side Bundle(application, viewers) because the base Application does not track its viewers')
 
 
-REPO_TESTS_QUICK = ['glue/viewers/common/tests', 'glue/viewers/scatter/tests/test_viewer.py', 'glue/viewers/histogram/tests/test_viewer.py',
-                    'glue/viewers/scatter/tests/test_python_export.py', 'glue/core/tests/test_application_base.py']
+REPO_TESTS_QUICK = ['glue/viewers/common/tests', 'glue/viewers/scatter/tests/test_viewer.py', 'glue/viewers/image/tests/test_viewer.py',
+                    'glue/core/tests/test_application_base.py']
 REPO_TESTS_THOROUGH = ['glue/viewers', 'glue/core/tests/test_application_base.py', 'glue/core/tests/test_state.py', 'glue/plugins', 'glue/dialogs']
 
 
@@ -121,7 +121,7 @@ def _e2(ctx, quick):
     with tlc.Workdir() as wd:
         _, _, traces, tail = hubtrace.record_repo_tests(wd.file('repotests.json'), REPO_TESTS_QUICK if quick else REPO_TESTS_THOROUGH, repo,
                                                         want_collections='viewers')
-        if len(traces) < (10 if quick else 60):
+        if len(traces) < (4 if quick else 60):
             raise core.MachineryFailure('tracer recorded only %d viewer traces from the repository tests:\n%s' % (len(traces), tail))
         accepted, rejected, states, kept = viewertrace.validate(wd, traces)
         ctx.add_traces(kept, accepted)
